@@ -33,7 +33,7 @@ OPS = ["slice", "step", "mask", "intidx", "take", "takefill", "concat", "copy", 
 
 def shards(tier, seed):
     subs = A.pick_subtypes(tier, seed, n_quick=2)
-    n = 25 if tier == "quick" else 400
+    n = 45 if tier == "quick" else 500
     groups = [["point", "multipoint", "line"], ["ring", "multiline", "polygon"], ["multipolygon"]]
     out = []
     for kinds in groups:
